@@ -204,11 +204,34 @@ fn bound_names_of(t: &T, out: &mut Vec<Name>) {
     }
 }
 
+fn proper_subterms_postorder(t: &T, out: &mut Vec<T>) {
+    for a in &t.args {
+        if let Arg::Child(c) | Arg::Bind(_, c) = a {
+            proper_subterms_postorder(c, out);
+            if !out.contains(c) {
+                out.push((**c).clone());
+            }
+        }
+    }
+}
+
+/// does the model value of `t` ignore its free name `x`?
+fn independent_of(t: &T, x: Name, p: u32) -> bool {
+    let (fv, table) = term_table(t, p);
+    let Some(pos) = fv.iter().position(|y| *y == x) else { return false };
+    table.iter().all(|(k, v)| {
+        let mut k0 = k.clone();
+        k0[pos] = 0;
+        table[&k0] == *v
+    })
+}
+
 /// `fresh_names`: a copy of the start term with other names is inserted first (so every class the start term needs
 /// exists already), then the start term itself with free and bound names spelled like the library's next fresh
 /// slots - the situation of a term printed by another session and parsed back (no internally invented slot may
 /// capture them)
-fn run<M: SubstMethod<Ar, ()> + 'static>(start: &T, rules_idx: &[usize], pl_iters: usize, primes: &[u32], budget: usize, fresh_names: bool) -> (Vec<Fail>, u64, u64, Vec<u64>, u64) {
+fn run<M: SubstMethod<Ar, ()> + 'static>(start: &T, rules_idx: &[usize], pl_iters: usize, primes: &[u32], budget: usize, presentation: u8) -> (Vec<Fail>, u64, u64, Vec<u64>, u64) {
+    let fresh_names = presentation == 1;
     AR_FRESH_NAMES.with(|c| c.set(fresh_names));
     let pool = rule_pool();
     let mut fails: Vec<Fail> = Vec::new();
@@ -240,6 +263,32 @@ fn run<M: SubstMethod<Ar, ()> + 'static>(start: &T, rules_idx: &[usize], pl_iter
                 ar_slot(n);
             }
         }
+        if presentation == 2 {
+            // "redundancy first": the proper sub-terms are inserted bottom-up, and a sub-term whose model value does not
+            // depend on one of its free slots (in F_5 and in F_7) is united with a copy in which that slot is renamed
+            // BEFORE its parents exist: the class has lost the slot (and is still the leader) when its parents are created
+            let mut subs = Vec::new();
+            proper_subterms_postorder(start, &mut subs);
+            let mut shrunk = false;
+            for s in &subs {
+                let Ok(id) = catch(|| eg.add_expr(ar_recexpr(s))) else { continue };
+                for x in s.fv() {
+                    if [5u32, 7].iter().all(|p| independent_of(s, x, *p)) {
+                        let m: BTreeMap<Name, Name> = [(x, x + 60)].into_iter().collect();
+                        let s2 = s.rename(&m);
+                        if let Ok(id2) = catch(|| eg.add_expr(ar_recexpr(&s2))) {
+                            let _ = catch(|| eg.union(&id, &id2));
+                            shrunk = true;
+                        }
+                    }
+                }
+            }
+            if !shrunk {
+                // nothing to shrink: this presentation would repeat the plain one
+                return (fails, evals, goals, fps, transitions);
+            }
+            goals |= 128;
+        }
         let root = match catch(|| eg.add_expr(ar_recexpr(start))) {
             Ok(r) => r,
             Err(site) => {
@@ -247,7 +296,7 @@ fn run<M: SubstMethod<Ar, ()> + 'static>(start: &T, rules_idx: &[usize], pl_iter
                 return (fails, evals, goals, fps, transitions);
             }
         };
-        check_against_model(&eg, &root, start, primes, if fresh_names { "after insertion next to a renamed copy, with names spelled like the next fresh slots" } else { "after insertion" }, &mut fails, &mut evals);
+        check_against_model(&eg, &root, start, primes, if fresh_names { "after insertion next to a renamed copy, with names spelled like the next fresh slots" } else if presentation == 2 { "after insertion on top of sub-terms that had lost a slot" } else { "after insertion" }, &mut fails, &mut evals);
         for it in 1..=pl_iters {
             let before_nodes = eg.total_number_of_nodes();
             let r = catch(|| apply_rewrites(&mut eg, &rules));
@@ -324,10 +373,10 @@ impl Prop for RewriteProp {
         ]
     }
     fn goals(&self) -> Vec<&'static str> {
-        vec!["class_whose_node_has_redundant_slot", "cyclic_class", "symmetric_class", "rewrite_added_nodes", "rule_moving_term_under_binder_fired", "substitution_form_fired", "conditional_rule_fired"]
+        vec!["class_whose_node_has_redundant_slot", "cyclic_class", "symmetric_class", "rewrite_added_nodes", "rule_moving_term_under_binder_fired", "substitution_form_fired", "conditional_rule_fired", "start_term_inserted_on_top_of_a_class_that_had_lost_a_slot"]
     }
     fn rule(&self) -> String {
-        "Start terms: all terms of size <=3 (thorough 4) of the arithmetic language (numbers 0,1,2; two free slots; sum and let binders up to depth 2) plus eight binder-heavy terms. Rule sets: every subset of <=2 rules (triples too for the hand-made terms; thorough: triples for every term) of a 25-rule pool, the full pool, and let-subst pairs; subsets of <=1 rule are also run in a second presentation (a renamed copy of the start term inserted first, the start term's names spelled like the library's next fresh slots); SynExprSubst and ExtractionSubst; driven by apply_rewrites for up to 3 (4) iterations within a node budget and by Runner::run. Every rule is first self-tested to be an identity of the model for all admissible instantiations by small terms in F_5 and F_7. After insertion and after EVERY iteration: class value tables are built by least fixpoint and EVERY e-node of EVERY class is evaluated under ALL environments of its slots in F_5 (thorough also F_7; `sum $x b` = b[1]+b[2]+b[3], NOT the sum over the whole field, which would annihilate every summand of degree < p-1) including slots the class does not have, and the root class is compared with the directly evaluated start term. Non-trivial = executions in which rewriting added nodes is a coverage goal; states = progress fingerprints after each iteration.".into()
+        "Start terms: all terms of size <=3 (thorough 4) of the arithmetic language (numbers 0,1,2; two free slots; sum and let binders up to depth 2) plus eight binder-heavy terms. Rule sets: every subset of <=2 rules (triples too for the hand-made terms; thorough: triples for every term) of a 25-rule pool, the full pool, and let-subst pairs; subsets of <=1 rule are also run in a second presentation (a renamed copy of the start term inserted first, the start term's names spelled like the library's next fresh slots); every rule set in a third presentation when the start term has a sub-term whose model value ignores one of its slots (the proper sub-terms inserted bottom-up, such a sub-term united with a renamed copy before its parents exist: redundancy first, parents afterwards); SynExprSubst and ExtractionSubst; driven by apply_rewrites for up to 3 (4) iterations within a node budget and by Runner::run. Every rule is first self-tested to be an identity of the model for all admissible instantiations by small terms in F_5 and F_7. After insertion and after EVERY iteration: class value tables are built by least fixpoint and EVERY e-node of EVERY class is evaluated under ALL environments of its slots in F_5 (thorough also F_7; `sum $x b` = b[1]+b[2]+b[3], NOT the sum over the whole field, which would annihilate every summand of degree < p-1) including slots the class does not have, and the root class is compared with the directly evaluated start term. Non-trivial = executions in which rewriting added nodes is a coverage goal; states = progress fingerprints after each iteration.".into()
     }
     fn assumptions(&self) -> Vec<String> {
         vec!["environments are enumerated completely for the prime fields p=5 (and 7), not drawn at random; an unsound merge that is an identity in both fields is invisible".into(), "e-graphs above the node budget are not evaluated".into()]
@@ -361,9 +410,14 @@ impl Prop for RewriteProp {
         // rule subsets of at most one rule are also run in the "parsed back from another session" presentation
         let also_fresh = rs.len() <= 1;
         let r = fresh_thread(move || {
-            let mut r = if ext { run::<ExtractionSubst>(&s2, &rs2, iters, &primes, budget, false) } else { run::<SynExprSubst>(&s2, &rs2, iters, &primes, budget, false) };
-            if also_fresh && r.0.is_empty() {
-                let r2 = if ext { run::<ExtractionSubst>(&s2, &rs2, iters, &primes, budget, true) } else { run::<SynExprSubst>(&s2, &rs2, iters, &primes, budget, true) };
+            let mut r = if ext { run::<ExtractionSubst>(&s2, &rs2, iters, &primes, budget, 0) } else { run::<SynExprSubst>(&s2, &rs2, iters, &primes, budget, 0) };
+            // presentation 1 for rule sets of at most one rule; presentation 2 ("redundancy first") for every rule set, it
+            // returns at once when the start term has no sub-term that ignores one of its slots
+            for pres in [1u8, 2] {
+                if (pres == 1 && !also_fresh) || !r.0.is_empty() {
+                    continue;
+                }
+                let r2 = if ext { run::<ExtractionSubst>(&s2, &rs2, iters, &primes, budget, pres) } else { run::<SynExprSubst>(&s2, &rs2, iters, &primes, budget, pres) };
                 r.0.extend(r2.0);
                 r.1 += r2.1;
                 r.2 |= r2.2;
